@@ -41,6 +41,8 @@ for m in brk:
     own = m.split("-")[0]
     r = M[m]
     ownr = ", ".join(r[own][1]) if r[own][0] == 1 else f"exit {r[own][0]}"
+    if r[own][0] == 0 and meta(m).get("static_out_of_reach"):
+        ownr = "not detected (outside static reach, see text)"
     others = "; ".join(f"{p}: {', '.join(v[1]) or 'exit 2'}" for p, v in sorted(r.items()) if p != own and v[0] != 0)
     print(f"| {m} | {short(m)} | {F.get(m, '?')} | {ownr} | {others or '-'} | {verified(m)} |")
 print("\n**Behaviour-preserving refactorings** (p1, p2: round 2; p3, p4: round 3; every check must stay silent)\n")
